@@ -99,6 +99,9 @@ func checkC11(c *Ctx) {
 		"class expectation and as-built predictions are those of C06; generated domain excludes Avoid = {hide, selfw, gshallow}",
 	}
 	scAvoid = `{"hide","selfw","gshallow"}`
+	// files are named like the variables (a.lua, b.lua) and may require each other and return a value
+	scModNames = []string{"a", "b"}
+	scKinds = `{"local","local2","use","assign","assign2","do","while","if","repeat","fornum","forin","lfunc","lefunc","gfunc","meth","cfunc","file","ret","require"}`
 	scLight = true
 	p := c.NewPool(12)
 	p2 := c.NewPool(4)
@@ -269,6 +272,13 @@ func checkC11(c *Ctx) {
 			}
 			if strings.Join(gotU, " ") != strings.Join(want, " ") {
 				if len(devs) > 0 && strings.Join(gotU, " ") == strings.Join(awant, " ") {
+					for dv := range devs {
+						c.Rep.Deviation(dv, desc, j.Raw)
+					}
+					continue
+				}
+				if looseMatch(gotU, want, scLoose) || looseMatch(gotU, awant, scLoose) {
+					c.Rep.Deviation("Dev_GlobalNamedLikeUnresolvedRequire", desc, j.Raw)
 					for dv := range devs {
 						c.Rep.Deviation(dv, desc, j.Raw)
 					}
